@@ -38,7 +38,7 @@ struct ValueSet {
             vals.push_back(from_json<C>(json));
             names.push_back(name);
         };
-        add("object", R"({"a":1,"b":[0,1,{"a":"x<y"}],"v":{"a":2,"x]":3},"x]":"q","0":5,"1":"s&t","g":[{"y":1,"a":2},{"y":2,"a":3},{"y":1,"a":4}],"p":"P{0}{1}{2}","s":"<b>\"'&","n":-9223372036854775807,"d":2.5,"z":0,"zz":0.0,"t":true,"f":false,"u":null,"e":"","ns":"12","arr":[[1],[2,3]],"o":{"k1":[1],"k2":{}}})");
+        add("object", R"({"a":1,"b":[0,1,{"a":"x<y"}],"v":{"a":2,"x]":3},"x]":"q","0":5,"1":"s&t","g":[{"y":1,"a":2},{"y":2,"a":3},{"y":1,"a":4}],"p":"P{0}{1}{2}","s":"<b>\"'&","n":-9223372036854775807,"d":2.5,"h":0.25,"z":0,"zz":0.0,"t":true,"f":false,"u":null,"e":"","ns":"12","arr":[[1],[2,3]],"o":{"k1":[1],"k2":{}}})");
         add("array", R"([1,"b",[0,1,[5]],{"a":2,"v":[7,8]},-3,2.5,true,null,"",{"y":1},{"y":2}])");
         add("deep", R"({"a":{"a":{"a":{"a":{"a":[[[[1]]]]}}}},"v":[[[[{"v":[1,2]}]]]],"b":{"0":{"0":{"0":0}}}})");
         add("empty-object", "{}");
@@ -46,7 +46,7 @@ struct ValueSet {
         add("scalar", "[0]");
         // removed members (tombstones / holes), divisors, extreme integers
         {
-            Value<C> v = from_json<C>(R"({"a":1,"x":2,"b":[1,2,3],"v":{"a":1,"b":2},"0":0,"1":0.0,"m":-1})");
+            Value<C> v = from_json<C>(R"({"a":1,"x":2,"b":[1,2,3],"v":{"a":1,"b":2},"0":0,"1":0.0,"m":-1,"h":-0.5})");
             const C kx[2] = {C('x'), 0};
             const C kb[2] = {C('b'), 0};
             const C kv[2] = {C('v'), 0};
